@@ -20,3 +20,19 @@
   :pattern ((entryKey c f v id) (scat (valKey c f w) s)))))
 ; every entry of the index lies below "<index key space>\xff" (the byte after the key space is 't')
 (assert (forall ((c Str) (f Str) (v Val) (id Str)) (! (< (strCmp (entryKey c f v id) (scat (idxKS c f) (sbyte1 #xff))) 0) :pattern ((entryKey c f v id) (scat (idxKS c f) (sbyte1 #xff))))))
+; value keys alone are ordered like the values
+(assert (forall ((c Str) (f Str) (v Val) (w Val)) (! (=> (and (kx v) (kx w))
+    (and (=> (< (cmpS v w) 0) (< (strCmp (valKey c f v) (valKey c f w)) 0))
+         (=> (= (cmpS v w) 0) (= (valKey c f v) (valKey c f w)))
+         (=> (> (cmpS v w) 0) (> (strCmp (valKey c f v) (valKey c f w)) 0))))
+  :pattern ((valKey c f v) (valKey c f w)))))
+; an entry key is the value key followed by the id; stored ids have 36 bytes
+(assert (forall ((c Str) (f Str) (v Val) (id Str)) (! (= (entryKey c f v id) (scat (valKey c f v) id)) :pattern ((entryKey c f v id)))))
+(assert (forall ((id Str)) (! (=> (idOK id) (= (slen id) #x0000000000000024)) :pattern ((idOK id)))))
+; decoders of stored entry keys (skolem functions of "every key in an index key space is an entry of that index")
+(declare-fun valOfKey (Str) Val)
+(declare-fun idOfKey (Str) Str)
+; the entries whose key starts with the value key of w are exactly the entries of values equal to w
+(assert (forall ((c Str) (f Str) (v Val) (w Val) (id Str)) (! (=> (and (kx v) (kx w))
+    (= (hasPrefix (entryKey c f v id) (valKey c f w)) (= (cmpS v w) 0)))
+  :pattern ((hasPrefix (entryKey c f v id) (valKey c f w))))))
